@@ -73,6 +73,19 @@ var (
 	driftBy     sync.Map
 )
 
+var (
+	notSeenMu      sync.Mutex
+	notSeenSamples []string
+)
+
+func noteNotSeen(dev, what string) {
+	notSeenMu.Lock()
+	if len(notSeenSamples) < 8 {
+		notSeenSamples = append(notSeenSamples, dev+": "+what)
+	}
+	notSeenMu.Unlock()
+}
+
 func noteDrift(what string) {
 	drift.Add(1)
 	v, _ := driftBy.LoadOrStore(what, new(atomic.Int64))
@@ -96,6 +109,7 @@ func judgeDecode(l *DecLine, o *Obs) (vs []verdict) {
 	if has(l.Want, o.Class) {
 		if l.Dev != "" {
 			devNotSeen.Add(1)
+			noteNotSeen(l.Dev, describe(o))
 		}
 		if len(l.Want) > 1 {
 			lenientBoth.Store(l.Tr+"/"+l.Slot+"/"+l.Cls, o.Class)
@@ -107,7 +121,7 @@ func judgeDecode(l *DecLine, o *Obs) (vs []verdict) {
 		return vs
 	}
 	switch {
-	case l.Dev != "" && ((o.Class == "recovered" && strings.HasSuffix(l.Dev, "nil-deref") && panicMatches(l.Dev, o)) || (o.Class == "silent" && strings.HasSuffix(l.Dev, "no-close") && o.ReturnedEarly)):
+	case l.Dev != "" && ((o.Class == "recovered" && strings.HasSuffix(l.Dev, "nil-deref") && panicMatches(l.Dev, o)) || (strings.HasSuffix(l.Dev, "no-close") && ((o.Class == "silent" && o.ReturnedEarly) || o.Class == "dropped"))):
 		devSeen.Add(1)
 		add(l.Dev, "outcome %s, the specification admits %v", describe(o), l.Want)
 	default:
@@ -541,6 +555,15 @@ func main() {
 			vlib.Infra("TLC enumerated no upload input of mode %s (vacuous)", m)
 		}
 	}
+	if f := os.Getenv("C10_FILTER"); f != "" { // debugging aid: only lines containing f
+		var keep []caseItem
+		for _, it := range items {
+			if strings.Contains(it.Raw, f) {
+				keep = append(keep, it)
+			}
+		}
+		items = keep
+	}
 	// deterministic order, shuffled by the seed so that the children see a mix
 	rng := rand.New(rand.NewSource(vlib.Seed()))
 	rng.Shuffle(len(items), func(i, j int) { items[i], items[j] = items[j], items[i] })
@@ -621,10 +644,14 @@ func main() {
 	wg.Wait()
 	pinWG.Wait()
 
-	if tempCases.Load() == 0 {
+	debugFilter := os.Getenv("C10_FILTER") != ""
+	if debugFilter {
+		fmt.Fprintf(os.Stderr, "c10: deviations not observed: %v\n", notSeenSamples)
+	}
+	if tempCases.Load() == 0 && !debugFilter {
 		vlib.Infra("no request was observed with a spill file in TMPDIR: the temp-file path was not exercised (vacuous)")
 	}
-	if delivered.Load() == 0 {
+	if delivered.Load() == 0 && !debugFilter {
 		vlib.Infra("no delivered upload was compared (vacuous)")
 	}
 	db := map[string]int64{}
@@ -651,6 +678,9 @@ func main() {
 	c.Set("impl_level_drift_by", db)
 	c.Set("deviation_lines_observed", devSeen.Load())
 	c.Set("deviation_lines_not_observed", devNotSeen.Load())
+	if len(notSeenSamples) > 0 {
+		c.Set("deviation_not_observed_samples", notSeenSamples)
+	}
 	c.Set("requests_with_spill_file", tempCases.Load())
 	c.Set("requests_with_in_memory_upload", memCases.Load())
 	c.Set("uploads_compared", delivered.Load())
